@@ -366,7 +366,9 @@ def tlc(ctx, module, cfg, workers=None, timeout=900, simulate=None, depth=None, 
     with open(os.path.join(d, module + ".cfg"), "w") as f:
         f.write(cfg)
     w = workers or (1 if simulate else NCPU)
-    cmd = ["timeout", str(timeout), "java", "-XX:+UseParallelGC", "-Xss256m"]
+    jtmp = os.path.join(d, "jtmp")          # TLC leaves a tlc-* directory in java.io.tmpdir on every run
+    os.makedirs(jtmp, exist_ok=True)
+    cmd = ["timeout", str(timeout), "java", "-XX:+UseParallelGC", "-Xss256m", "-Djava.io.tmpdir=" + jtmp]
     if heap:
         cmd.append("-Xmx%s" % heap)
     if deque:
